@@ -45,23 +45,11 @@ theorem hot_runActs (i : Nat) (alive : Bool) (acts : List Act) :
           have := ih alive
           cases alive <;> simp_all [Node.act, Node.deliver, hotDeliver]
         | error e =>
-          by_cases h : (alive && !df) = true
-          · have := ih false
-            have ha : alive = true := by simp at h; exact h.1
-            subst ha
-            simp [Node.act, Node.deliver, hotDeliver, h, this.2 rfl]
-          · have := ih alive
-            simp only [Bool.not_eq_true] at h
-            simpa [Node.act, Node.deliver, hotDeliver, h] using this
+          have := ih false
+          cases alive <;> simp [Node.act, Node.deliver, hotDeliver, this.2 rfl]
         | complete =>
-          by_cases h : (alive && !df) = true
-          · have := ih false
-            have ha : alive = true := by simp at h; exact h.1
-            subst ha
-            simp [Node.act, Node.deliver, hotDeliver, h, this.2 rfl]
-          · have := ih alive
-            simp only [Bool.not_eq_true] at h
-            simpa [Node.act, Node.deliver, hotDeliver, h] using this
+          have := ih false
+          cases alive <;> simp [Node.act, Node.deliver, hotDeliver, this.2 rfl]
 
 theorem emit_wf (s : Src) : WF s.emit := by
   cases s with
